@@ -226,6 +226,130 @@ def gen_strong_case(rng):
     return {"exact": False, "family": "strong", "probes": probes, "ops": ops}
 
 
+def gen_near_case(rng):
+    """family "near": a state whose matrix has LARGE entries (a fixture offset of 50..2000 units, a turn / scaling /
+    mirror about a pivot that far away) is snapshotted - under a name, on the stack, by a `with` block -, then changed
+    only SLIGHTLY (relative size 10^-2 .. 10^-7 of the entries at hand: a fine offset, a shrinkage factor, a tiny turn,
+    a nudged pivot), then restored (`restore_state(name)`, `restore_state()`, `named_transform(name)`, leaving
+    `current_transform()`), in 2..5 rounds, with and without a change of ordinary size and a first restore in between,
+    and sometimes used (a call about the pivot) right after the restore.  The ordinary and the strong family only ever
+    change a snapshotted state by amounts of the size of its entries, so that "the state restored" and "the state that
+    happened to be current" were never close to each other.  A shadow reference machine tells the generator how large
+    the entries currently are."""
+    sh = X.RefMachine()
+    ops = []
+    names = X.NAMES[: rng.choice([1, 1, 2])]
+    budget = {"log": 0.0, "max": 2.0}
+    st = {"rot": 0, "depth": 0}
+    saved = []
+
+    def emit(op):
+        ops.append(op)
+        sh.step(op)
+
+    def far(lo=50.0):
+        return round(rng.choice([-1, 1]) * rng.choice([rng.uniform(lo, 400.0), rng.uniform(lo, 2000.0)]), rng.choice([0, 0, 1, 3]))
+
+    def far3():
+        return [far(), far(), rng.choice([0.0, 0.0, far(5.0) / 10])]
+
+    def ordinary():
+        while True:
+            op = X.gen_xf_op(rng, False, budget)
+            if op[0] == "rotate" and op[1] != 0.0:
+                if st["rot"] >= 5:  # keeps the model's exact rationals printable
+                    continue
+                st["rot"] += 1
+            return op
+
+    def about():
+        r = rng.random()
+        if r < 0.45 and st["rot"] < 5:
+            st["rot"] += 1
+            return ("rotate", rng.choice([90.0, 30.0, 45.0, -17.25, rng.uniform(-180, 180)]), rng.choice(X.AXES))
+        if r < 0.75:
+            return ("scale", [rng.choice([2.0, 0.5, 1.5, -1.0, 1.25])])
+        return ("mirror", rng.choice(["xy", "yz", "zx"]))
+
+    def small():
+        k = rng.randint(2, 7)
+        return float(f"{rng.choice([1, 1, 2, 5, round(rng.uniform(1, 9.9), 2)])}e-{k}")
+
+    def tiny(rel):
+        M, p = sh.cur
+        r = rng.random()
+        if r < 0.40:     # a fine offset, relative to the offsets in force
+            d = [rng.choice([-1, 1, 1, 0]) * rel * max(1.0, abs(float(M[i, 3]))) for i in range(3)]
+            if not any(d):
+                d[rng.randrange(2)] = rel * max(1.0, float(np.max(np.abs(M[:3, 3]))))
+            return ("translate", d)
+        if r < 0.75:     # a shrinkage / calibration factor
+            s, t = 1.0 + rel, 1.0 - rel
+            return ("scale", rng.choice([[s], [s], [t], [s, s], [s, t, 1.0], [1.0, 1.0, t]]))
+        if r < 0.87 and st["rot"] < 5:
+            st["rot"] += 1
+            return ("rotate", rng.choice([-1, 1]) * rel * rng.choice([1.0, 10.0, 57.3]), rng.choice(X.AXES))
+        return ("pivot", [float(c) + rng.choice([-1, 1, 1, 0]) * rel * max(1.0, abs(float(c))) for c in p])
+
+    # --- a state with large entries
+    for _ in range(rng.choice([0, 0, 1, 2])):
+        emit(ordinary())
+    shape = rng.choice(["offset", "offset", "offset+turn", "far-pivot", "both"])
+    if shape in ("offset", "offset+turn", "both"):
+        emit(("translate", far3()))
+    if shape == "offset+turn":
+        emit(about())
+    if shape in ("far-pivot", "both"):
+        emit(("pivot", far3()))
+        emit(about())
+    # --- snapshot it
+    nm = rng.choice(names)
+    emit(("save", nm if rng.random() < 0.9 else " " + nm))
+    saved.append(nm)
+    # --- rounds of: small change, restore
+    for _ in range(rng.randint(2, 5)):
+        how = rng.choice(["name", "name", "name", "enter-named", "enter-named", "stack", "current"])
+        nm = rng.choice(saved)
+        if rng.random() < 0.25:   # a change of ordinary size is undone first: the small one starts from the snapshot
+            emit(ordinary())
+            emit(("restore", nm))
+        if how == "stack":
+            emit(("save", None))
+        elif how == "current":
+            emit(("enter-current",))
+        rel = small()
+        emit(tiny(rel))
+        if rng.random() < 0.3:
+            emit(tiny(rel if rng.random() < 0.5 else small()))
+        if how == "name":
+            emit(("restore", nm))
+        elif how == "stack":
+            emit(("restore", None))
+        elif how == "current":
+            emit(("exit", rng.random() < 0.4))
+        else:
+            emit(("enter-named", nm))
+            if rng.random() < 0.4:
+                emit(tiny(small()))
+            emit(("exit", rng.random() < 0.4))
+            if rng.random() < 0.7:
+                emit(("restore", nm))
+        if rng.random() < 0.3:    # the restored state is used: a call about the pivot in force, then back again
+            emit(about())
+            emit(("restore", nm))
+        if rng.random() < 0.2:    # another snapshot: of what is current now, or under a second name
+            nm2 = rng.choice(names)
+            emit(("save", nm2))
+            if nm2 not in saved:
+                saved.append(nm2)
+    for nm in sorted(saved):
+        emit(("restore", nm))
+    probes = gen_probes(rng, False)[:3]
+    if rng.random() < 0.5:   # a drawing of the size of the fixture
+        probes[rng.randrange(3)] = [float(rng.randint(-400, 400)), float(rng.randint(-400, 400)), float(rng.randint(-20, 20))]
+    return {"exact": False, "family": "near", "probes": probes, "ops": ops}
+
+
 # exhaustive alphabet (thorough): 10 calls, exact arithmetic
 ALPHABET = [
     ("translate", [1.0, 0.5, -2.0]), ("scale", [2.0]), ("chain", [0.0, -1.0, 0.0, 1.0, 0.0, 0.0, 0.0, 0.0, 1.0]),
@@ -317,11 +441,16 @@ U = 2.0 ** -53   # unit roundoff of IEEE double
 # |error| / bound was 1.28 (round trip), 0.30 (apply), 0.25 (reverse), 0.83 (pivot).  Each K leaves a factor >= 200 above
 # that; the worst ratios of every run are written to the evidence (`strong_margins`).  For comparison, coordinates
 # snapped to 12 decimals under scale(1e-6) give ratios of 1e6 .. 1e10 in the round trip.
+# The family "near" is judged with the same K and the same bounds (`NearRef`: translate bounded as the call about the pivot
+# it is).  Measured on the unchanged tree over 16 seeds x 1000 generated cases (~325 000 calls, 3 probes each): worst
+# ratios 1.14 (round trip), 0.31 (apply), 0.24 (reverse), 1.15 (pivot), 0 (a named state against its own earlier images:
+# bit-identical) - again a factor >= 200 below K; written to the evidence as `near_margins`.  A restore skipped because the
+# change since the snapshot was "small" (1e-7 of an offset of 250) gives apply ratios of 1e5 .. 1e10.
 K_RT = 256.0     # round trip reverse(apply(p)) = p
 K_AP = 64.0      # apply_transform against the reference (and against the exact model)
 K_RV = 64.0      # reverse_transform against the reference (and against the exact model)
 K_PV = 256.0     # the pivot stays fixed
-WORST = {"rt": 0.0, "ap": 0.0, "rv": 0.0, "pivot": 0.0}
+WORST = {"rt": 0.0, "ap": 0.0, "rv": 0.0, "pivot": 0.0, "same": 0.0}
 
 
 class ErrRef(X.RefMachine):
@@ -367,6 +496,27 @@ class ErrRef(X.RefMachine):
             return "ok"
         self._dl = 4 * U if k in ("rotate", "reflect") else 0.0
         return super().step(op)
+
+
+class NearRef(ErrRef):
+    """`ErrRef` for the family "near".  `translate(v)` is carried out by the implementation like every other call, about
+    the pivot: fl(fl(T(p) T(v)) T(-p)) M.  The exact product is T(v), but p + v - p is rounded at the size of p, not of v:
+    for an offset much smaller than the pivot (which only this family produces) the error u|p| exceeds `ErrRef`'s
+    4u|T(v)||M| (seen on the unchanged tree: translate z = 1e-4 about a pivot z = -2.4 gives 1.0000000000021e-4).  So
+    the bound of a call about the pivot is used, with L = T(v) and dL = 0:
+
+        dN = 8u |T(p)||T(v)||T(-p)|,   E' = |T(v)| E + (dN + 4u|T(v)|) |M|
+
+    The strong family keeps `ErrRef` as it was."""
+
+    def step(self, op) -> str:
+        if op[0] != "translate":
+            return super().step(op)
+        M, p, E = self.cur
+        T = X._eye_t(np.array(op[1], dtype=float))
+        dN = 8 * U * np.abs(X._eye_t(p)) @ np.abs(T) @ np.abs(X._eye_t(-p))
+        self.cur = (T @ M, p, np.abs(T) @ E + (dN + 4 * U * np.abs(T)) @ np.abs(M))
+        return "ok"
 
 
 def _over(kind, got, want, unit, K):
@@ -415,8 +565,9 @@ def strong_units(ref, p, mats):
 def oracle_strong(case, trace):
     """the oracle of the strong family: same clauses as `oracle`, every numerical comparison against a tolerance that
     follows the conditioning of the matrix, plus the round trip reverse(apply(p)) = p after every call"""
-    ref = ErrRef()
+    ref = NearRef() if case.get("family") == "near" else ErrRef()
     probes = case["probes"]
+    shown = {}   # name -> (step, images of the probes) when the state was saved under that name
     for i, e in enumerate(trace):
         op = e["op"]
         ref_pivot_before = ref.cur[1].copy()
@@ -431,6 +582,21 @@ def oracle_strong(case, trace):
             return f"{where}: named states {sorted(o['names'])}, expected {sorted(ref.named)}", "names"
         tol_ap, tol_rv = [], []
         mats = abs_mats(ref.cur[0], ref.cur[2])
+        # "a named state yields the same mapping every time it is restored": the implementation against ITSELF - the
+        # images of the probes observed when the state was saved under the name, and after every later restore of that
+        # name.  Both are fl(M^ p~) of what must be one and the same stored matrix (a correct implementation gives
+        # bit-identical results); the allowance is the apply tolerance of the state, K_AP x (2E + 4u|M|)|p~|.
+        key = ref._key(op[1]) if op[0] in ("save", "restore", "enter-named") and e["outcome"] == "ok" else None
+        if key is not None and op[0] == "save":
+            shown[key] = (i, o["ap"])
+        elif key is not None and key in shown:
+            i0, first = shown[key]
+            for p, was, got in zip(probes, first, o["ap"]):
+                u_ap = strong_units(ref, p, mats)[0]
+                if _over("same", got, was, u_ap, K_AP):
+                    return (f"{where}: the state saved as {key!r} at step {i0} mapped {tuple(p)} to {was}; restored now, it "
+                            f"maps it to {got} (off by {float(np.max(np.abs(np.array(got) - np.array(was)))):.3e}, "
+                            f"rounding allows {float(np.max(K_AP * u_ap)):.3e})"), "named-immutable"
         for p, got, back, rt in zip(probes, o["ap"], o["rv"], o["rt"]):
             u_ap, u_rv, u_rt = strong_units(ref, p, mats)
             tol_ap.append(K_AP * u_ap)
@@ -472,7 +638,8 @@ class RTSession(X.Session):
 
 
 def is_strong(case):
-    return case.get("family") == "strong"
+    """the families judged by `oracle_strong` (tolerances that follow the matrix at hand, round trip after every call)"""
+    return case.get("family") in ("strong", "near")
 
 
 # ------------------------------------------------------------------ comparison with the model
@@ -608,6 +775,21 @@ STRONG_CORPUS = [
 ]
 
 
+NEAR_CORPUS = [
+    # a fixture offset saved under a name; a fine offset, a shrinkage factor and a nudged pivot, each followed by a restore
+    {"exact": False, "family": "near", "probes": [[0.0, 0.0, 0.0], [120.0, -35.5, 2.0], [1.25, 300.0, -0.5]],
+     "ops": [("translate", [300.0, -80.0, 12.5]), ("save", "a"), ("translate", [0.001, 0.0, 0.0]), ("restore", "a"),
+             ("scale", [1.000002]), ("restore", "a"), ("pivot", [0.0, 1e-6, 0.0]), ("restore", "a"), ("scale", [2.0]),
+             ("restore", "a")]},
+    # a turn about a far pivot, saved on the stack and under a name; small changes inside and before the blocks
+    {"exact": False, "family": "near", "probes": _P5,
+     "ops": [("pivot", [640.0, -410.0, 0.0]), ("rotate", 30.0, "z"), ("save", None), ("save", "b"),
+             ("translate", [-0.0004, 0.0002, 0.0]), ("enter-named", "b"), ("scale", [0.999999]), ("exit", False),
+             ("restore", "b"), ("scale", [1.0000005, 1.0000005]), ("restore", None), ("translate", [25.0, 0.0, 0.0]),
+             ("restore", "b"), ("enter-current",), ("translate", [0.0, 0.0, 3e-5]), ("exit", True), ("restore", "b")]},
+]
+
+
 def run(R: core.Run):
     R.rule = ("random call histories (3..25 calls + drain) over translate/scale/rotate/chain/reflect/mirror/set_pivot/"
               "save/restore/delete with <= 3 names (some padded with blanks) and `with current_transform()` / "
@@ -616,7 +798,10 @@ def run(R: core.Run):
               "(1e-9); non-trivial = >= 4 call kinds incl. a save or a block; distinct by hash; plus the family `strong`: "
               "scalings by 10^-k / 10^k, k <= 7 (alone, before/after ordinary calls, there and back, in two steps, "
               "snapshotted by save/restore or inside blocks), round trip reverse(apply(p)) = p checked after every call, all "
-              "numerical clauses with tolerances K x first-order rounding bound of the matrix at hand")
+              "numerical clauses with tolerances K x first-order rounding bound of the matrix at hand; plus the family `near` "
+              "(same oracle): states with entries of 50..2000 units (offsets, calls about far pivots) snapshotted by name / "
+              "stack / block, changed by 10^-2 .. 10^-7 of their entries (offset, factor, turn, pivot) and restored, 2..5 "
+              "rounds; a named state must map the probes as it did when it was saved, every time it is restored")
     R.assumptions = [
         "IEEE rounding inside numpy/scipy is not modelled: off-grid histories are compared at 1e-9 (relative to magnitude)",
         "scipy Rotation: the 3x3 block is read from the very call the code makes and handed to the model as exact rationals",
@@ -637,6 +822,14 @@ def run(R: core.Run):
         "what": "worst |error| / first-order rounding bound seen in the strong family (tolerance = K x bound)",
         "worst_ratio": {k: round(v, 3) for k, v in WORST.items()},
         "K": {"rt": K_RT, "ap": K_AP, "rv": K_RV, "pivot": K_PV}}
+    for k in WORST:
+        WORST[k] = 0.0
+    run_batch(R, NEAR_CORPUS, "near-corpus")
+    run_all(R, [gen_near_case(R.rng) for _ in range(R.n(150, 1500))], "near", 250)
+    R.extra["near_margins"] = {
+        "what": "worst |error| / first-order rounding bound seen in the near family (same K; `same` = a named state "
+                "against its own images at the time it was saved)",
+        "worst_ratio": {k: round(v, 3) for k, v in WORST.items()}}
     if R.thorough:
         ex = list(exhaustive_cases(5))
         run_all(R, ex, "exhaustive<=5", 4000)
@@ -649,6 +842,7 @@ def run(R: core.Run):
         R.search_batches += 1
         run_all(R, [gen_case(R.rng) for _ in range(R.n(1500, 6000))], "search", 500, oracle_only=True)
         run_all(R, [gen_strong_case(R.rng) for _ in range(R.n(300, 1500))], "strong-search", 500, oracle_only=True)
+        run_all(R, [gen_near_case(R.rng) for _ in range(R.n(200, 1500))], "near-search", 500, oracle_only=True)
     return {}, {}
 
 
